@@ -139,8 +139,17 @@ def render_errors(_case):
             continue
         except FailedParse as e:
             err = e
+        # (first of all: a policy object used while disabled must not be remembered by anything that outlives the call)
+        x = Color()
+        x.enable(False)
+        off0 = err.render(x)
+        x.enable(True)
+        off2 = err.render(Color.never())
         on1 = err.render(Color.always())
         off1 = err.render(Color.never())
+        if '\x1b' in off0 or '\x1b' in off2 or off2 != off1:
+            bad.append({'what': 'error rendered with colour disabled, after another policy object was switched on, contains escapes',
+                        'text': text, 'observed': [off0, off2]})
         on2 = err.render(Color.always())
         if '\x1b' in off1:
             bad.append({'what': 'error rendered with colour disabled (after a coloured rendering) contains escapes', 'text': text, 'observed': off1})
@@ -148,16 +157,6 @@ def render_errors(_case):
             bad.append({'what': 'descape(coloured error) != uncoloured error', 'text': text, 'observed': [on1, off1]})
         if '\x1b' not in on1:
             bad.append({'what': 'coloured error rendering has no escapes', 'text': text, 'observed': on1})
-        # a policy object that is switched on after it was used switched off (the documented idiom Color().enable(flag)): a later
-        # rendering under a disabled policy must not follow it
-        x = Color()
-        x.enable(False)
-        off0 = err.render(x)
-        x.enable(True)
-        off2 = err.render(Color.never())
-        if '\x1b' in off0 or '\x1b' in off2 or off2 != off1:
-            bad.append({'what': 'error rendered with colour disabled, after another policy object was switched on, contains escapes',
-                        'text': text, 'observed': [off0, off2]})
     return bad
 
 
